@@ -125,6 +125,24 @@ func (cl *Client) VerifOutbufLen() int {
 	return cl.Net.outbuf.Len()
 }
 
+// VerifEnqueue puts a packet on the client's pending-write queue the way publishToClient does
+// (non-blocking); it reports false when the queue is full.
+func (cl *Client) VerifEnqueue(pk packets.Packet) bool {
+	select {
+	case cl.State.outbound <- &pk:
+		atomic.AddInt32(&cl.State.outboundQty, 1)
+		return true
+	default:
+		return false
+	}
+}
+
+// VerifOutboundQty returns the number of queued packets the write loop has not finished with.
+func (cl *Client) VerifOutboundQty() int { return int(atomic.LoadInt32(&cl.State.outboundQty)) }
+
+// VerifOutboundLen returns the number of packets waiting in the pending-write queue.
+func (cl *Client) VerifOutboundLen() int { return len(cl.State.outbound) }
+
 // VerifDump renders the session state of a client canonically.
 func (cl *Client) VerifDump() string {
 	var fl []string
